@@ -30,6 +30,9 @@
      err_undoes_gauges the two UpstreamConnectionActive-- stand at [E]
      err_unsets_host   SetUpstreamHost(nil) stands at [E]
      timeout_finalizes the ConnectTimeout case calls finalize at [T]
+     counts_unlimited  resource_manager.go: Increase/Decrease are unguarded (since fix c8b45b4d7; before: no-ops while max == 0,
+                       although a cluster update keeps the counter and replaces only max)
+   The limit is part of the STATE (g_max): a cluster update changes it at run time (event SetMax).
    Connect() starts the upstream read loop before it returns, so a close event of the upstream connection can be
    handled (on the read loop goroutine) BEFORE the accounting at [A]: outcome ConnOkEarly.
 
@@ -40,7 +43,8 @@ Import ListNotations.
 Open Scope Z_scope.
 
 Record sw := mkSw { acct_before : bool; gauges_before : bool; err_decreases : bool; err_undoes_gauges : bool;
-                    err_unsets_host : bool; timeout_finalizes : bool }.
+                    err_unsets_host : bool; timeout_finalizes : bool;
+                    counts_unlimited : bool   (* resource.Increase/Decrease count also while max == 0 *) }.
 
 (* one Connect attempt *)
 Inductive outcome :=
@@ -66,23 +70,25 @@ Inductive event :=
 | Admit (i : nat)              (* initializeUpstreamConnection up to the CanCreate test *)
 | Dial (i : nat) (o : outcome) (* one iteration of the connect loop (the last one includes what follows the loop) *)
 | UpClose (i : nat)            (* a close event of the upstream connection while relaying (peer close, idle/local close, read error, write time-out) *)
+| SetMax (n : Z)               (* a cluster update replaces max_connections (updateResourceValue: the counter is kept) *)
 | DownClose (i : nat).         (* the downstream connection's own close (peer close, idle, read error); also: an accepted connection
                                   without upstream (L7 listener) closes *)
 
-Record cfg := mkCfg { maxc : Z; tries : nat }.   (* max_connections (0 = unlimited); min(#hosts, 3) *)
+Record cfg := mkCfg { maxc : Z; tries : nat }.   (* the INITIAL max_connections (0 = unlimited); min(#hosts, 3) *)
 
 Record gst := mkG {
   res : Z; g_host : Z; g_clu : Z; g_down : Z;
   ss : list sess;
-  overflows : nat        (* admissions refused by the breaker *)
+  overflows : nat;       (* admissions refused by the breaker *)
+  g_max : Z              (* the current max_connections *)
 }.
 
-Definition g0 := mkG 0 0 0 0 [] 0.
+Definition g0 (c : cfg) := mkG 0 0 0 0 [] 0 (maxc c).
 
-(* resource.Increase / Decrease: no-ops when max == 0 *)
-Definition bump (c : cfg) (v d : Z) : Z := if maxc c =? 0 then v else v + d.
+(* resource.Increase / Decrease (mx = the limit at the time of the call) *)
+Definition bump (w : sw) (mx : Z) (v d : Z) : Z := if counts_unlimited w then v + d else if mx =? 0 then v else v + d.
 (* resource.CanCreate *)
-Definition can_create (c : cfg) (cur : Z) : bool := (maxc c =? 0) || (cur <? 0) || (cur <? maxc c).
+Definition can_create (mx : Z) (cur : Z) : bool := (mx =? 0) || (cur <? 0) || (cur <? mx).
 
 Definition close_d (s : sess) : sess := mkS Done (hs s) (h_res s) (h_host s) (h_clu s) (h_down s - 1).
 
@@ -93,34 +99,34 @@ Definition add_gauges (s : sess) (d : Z) : sess := mkS (ph s) (hs s) (h_res s) (
 Definition set_ph (s : sess) (p : phase) : sess := mkS p (hs s) (h_res s) (h_host s) (h_clu s) (h_down s).
 
 (* [E]: what the Connect error branch gives back *)
-Definition undo (w : sw) (c : cfg) (s : sess) : sess :=
-  let s := if err_decreases w then set_res s (bump c (h_res s) (-1)) else s in
+Definition undo (w : sw) (c : Z) (s : sess) : sess :=
+  let s := if err_decreases w then set_res s (bump w c (h_res s) (-1)) else s in
   let s := if err_undoes_gauges w then add_gauges s (-1) else s in
   if err_unsets_host w then set_hs s false else s.
 
-Definition dial (w : sw) (c : cfg) (s : sess) (k : nat) (o : outcome) : sess :=
+Definition dial (w : sw) (c : Z) (s : sess) (k : nat) (o : outcome) : sess :=
   let next (s : sess) := match k with O => close_d s | S _ => set_ph s (Dialing k) end in
   match o with
   | NoHost => next s
   | _ =>
     (* [B] *)
-    let s := if acct_before w then set_res (set_hs s true) (bump c (h_res s) 1) else s in
+    let s := if acct_before w then set_res (set_hs s true) (bump w c (h_res s) 1) else s in
     let s := if gauges_before w then add_gauges s 1 else s in
     match o with
     | Refused => next (undo w c s)
     | TimedOut =>
-        let s := if timeout_finalizes w && hs s then set_res s (bump c (h_res s) (-1)) else s in
+        let s := if timeout_finalizes w && hs s then set_res s (bump w c (h_res s) (-1)) else s in
         next (undo w c s)
     | ConnOk =>
-        let s := if acct_before w then s else set_res (set_hs s true) (bump c (h_res s) 1) in
+        let s := if acct_before w then s else set_res (set_hs s true) (bump w c (h_res s) 1) in
         let s := if gauges_before w then s else add_gauges s 1 in
         set_ph s Live
     | ConnOkEarly =>
         (* the close event first: finalize, close D, event stats ... *)
-        let s := mkS (ph s) (hs s) (if hs s then bump c (h_res s) (-1) else h_res s)
+        let s := mkS (ph s) (hs s) (if hs s then bump w c (h_res s) (-1) else h_res s)
                      (if hs s then h_host s - 1 else h_host s) (h_clu s - 1) (h_down s - 1) in
         (* ... then the accounting at [A] *)
-        let s := if acct_before w then s else set_res (set_hs s true) (bump c (h_res s) 1) in
+        let s := if acct_before w then s else set_res (set_hs s true) (bump w c (h_res s) 1) in
         let s := if gauges_before w then s else add_gauges s 1 in
         set_ph s Done
     | NoHost => s
@@ -129,8 +135,8 @@ Definition dial (w : sw) (c : cfg) (s : sess) (k : nat) (o : outcome) : sess :=
 
 (* a close event while relaying: exactly one close event of the upstream connection is handled (its own, or the
    LocalClose the proxy gives it when the downstream connection closes), and the downstream connection closes *)
-Definition finish (c : cfg) (s : sess) : sess :=
-  mkS Done (hs s) (if hs s then bump c (h_res s) (-1) else h_res s)
+Definition finish (w : sw) (c : Z) (s : sess) : sess :=
+  mkS Done (hs s) (if hs s then bump w c (h_res s) (-1) else h_res s)
       (if hs s then h_host s - 1 else h_host s) (h_clu s - 1) (h_down s - 1).
 
 Fixpoint upd {A} (l : list A) (i : nat) (x : A) : list A :=
@@ -144,17 +150,18 @@ Fixpoint upd {A} (l : list A) (i : nat) (x : A) : list A :=
 Definition commit (g : gst) (i : nat) (old new : sess) (ovf : nat) : gst :=
   mkG (res g + (h_res new - h_res old)) (g_host g + (h_host new - h_host old))
       (g_clu g + (h_clu new - h_clu old)) (g_down g + (h_down new - h_down old))
-      (upd (ss g) i new) (overflows g + ovf).
+      (upd (ss g) i new) (overflows g + ovf) (g_max g).
 
 Definition step (w : sw) (c : cfg) (g : gst) (e : event) : gst :=
   match e with
-  | Accept => mkG (res g) (g_host g) (g_clu g) (g_down g + 1) (ss g ++ [mkS Accepted false 0 0 0 1]) (overflows g)
+  | Accept => mkG (res g) (g_host g) (g_clu g) (g_down g + 1) (ss g ++ [mkS Accepted false 0 0 0 1]) (overflows g) (g_max g)
+  | SetMax n => mkG (res g) (g_host g) (g_clu g) (g_down g) (ss g) (overflows g) (Z.max 0 n)
   | Admit i =>
       match nth_error (ss g) i with
       | Some s =>
           match ph s with
           | Accepted =>
-              if can_create c (res g) then
+              if can_create (g_max g) (res g) then
                 match tries c with
                 | O => commit g i s (close_d s) 0
                 | S _ => commit g i s (set_ph s (Dialing (tries c))) 0
@@ -166,14 +173,14 @@ Definition step (w : sw) (c : cfg) (g : gst) (e : event) : gst :=
       end
   | Dial i o =>
       match nth_error (ss g) i with
-      | Some s => match ph s with Dialing (S k) => commit g i s (dial w c s k o) 0 | _ => g end
+      | Some s => match ph s with Dialing (S k) => commit g i s (dial w (g_max g) s k o) 0 | _ => g end
       | None => g
       end
   | UpClose i | DownClose i =>
       match nth_error (ss g) i with
       | Some s =>
           match ph s with
-          | Live => commit g i s (finish c s) 0
+          | Live => commit g i s (finish w (g_max g) s) 0
           | Accepted => match e with DownClose _ => commit g i s (close_d s) 0 | _ => g end
           | _ => g
           end
@@ -181,7 +188,10 @@ Definition step (w : sw) (c : cfg) (g : gst) (e : event) : gst :=
       end
   end.
 
-Definition run (w : sw) (c : cfg) (evs : list event) : gst := fold_left (step w c) evs g0.
+Definition run (w : sw) (c : cfg) (evs : list event) : gst := fold_left (step w c) evs (g0 c).
+
+Definition is_setmax (e : event) : bool := match e with SetMax _ => true | _ => false end.
+Definition no_setmax (evs : list event) : bool := forallb (fun e => negb (is_setmax e)) evs.
 
 Definition is_early (e : event) : bool := match e with Dial _ ConnOkEarly => true | _ => false end.
 Definition no_early (evs : list event) : bool := forallb (fun e => negb (is_early e)) evs.
@@ -201,8 +211,10 @@ Fixpoint serial_from (w : sw) (c : cfg) (g : gst) (evs : list event) : bool :=
   end.
 
 (* the accounting before the repair (fix: close event before Connect returns) and after it *)
-Definition sw_old := mkSw false false false false false true.
-Definition sw_repaired := mkSw true true true true true false.
+Definition sw_old := mkSw false false false false false true false.
+Definition sw_repaired := mkSw true true true true true false true.
+(* the repaired accounting on the resource manager as it was before fix c8b45b4d7 (no counting while max == 0) *)
+Definition sw_nocount := mkSw true true true true true false false.
 
 (* --- correspondence case ---------------------------------------------------------------------------------- *)
 (* a history in groups; after each group the real counters were read: Connections().Cur(), the host's and the
@@ -220,7 +232,7 @@ Fixpoint groups_ok (w : sw) (c : cfg) (g : gst) (l : list (list event * acct_obs
   | [] => true
   | (evs, o) :: r => let g' := fold_left (step w c) evs g in obs_ok g' o && groups_ok w c g' r
   end.
-Definition acct_case_ok (w : sw) (k : acct_case) : bool := groups_ok w (a_cfg k) g0 (a_groups k).
+Definition acct_case_ok (w : sw) (k : acct_case) : bool := groups_ok w (a_cfg k) (g0 (a_cfg k)) (a_groups k).
 Fixpoint acct_mm_from (w : sw) (i : nat) (l : list acct_case) : list nat :=
   match l with
   | [] => []
